@@ -12,6 +12,7 @@ ALPHABETS = [
     "  \u007f\u0000\u001f\u0085",     # separators, DEL, controls
     "\"\\/\n\r\t\b\f",                          # characters with short escapes
     "０１ａ١٢",           # full-width / Arabic-Indic digits
+    "e\u0301A\u030a\u212b\u2126\u1100\u1161\uf900\ufb01",   # not in NFC / NFKC: combining marks, Angstrom, Ohm, jamo, compat forms
 ]
 
 SPECIAL_FLOATS = [0.0, -0.0, 1.0, -1.0, 0.1, 1e21, 1e22, 1e-7, 1e-6, 123456789012345680.0, 5e-324,
@@ -283,6 +284,17 @@ def confuse(rng, old=None):
         return {}
     if r < 0.86:
         return [old]
-    if r < 0.93:
+    if r < 0.90:
         return {"x": old}
+    if r < 0.96:
+        # right length, wrong kind: containers and non-hex strings of the lengths the grammars look for
+        n = rng.choice([40, 64, 128, 2])
+        k = rng.random()
+        if k < 0.3:
+            return ["0"] * n
+        if k < 0.5:
+            return {"%d" % i: 0 for i in range(n)}
+        if k < 0.75:
+            return "".join(rng.choice("ghijkxyz-_ ") for _ in range(n))
+        return "".join(rng.choice("0123456789ABCDEF") for _ in range(n))
     return gen_json(rng, 2)
